@@ -32,7 +32,12 @@ RULE = ('all 9 bundled libraries x {by name, by explicit path, by name from a '
         'midpoints}; every pattern and descriptor connectivity; every remap; '
         'every uncertainty block. Exhaustive. Non-trivial = a (library, '
         'group) or (library, pattern/remap/UQ item) actually evaluated; '
-        'distinct by item.')
+        'distinct by item.'
+        ' '
+        'Rounds 17-19: relocated trees whose files are symbolic links'
+        ' (content-addressed store; de-duplicated), loaded by name and by'
+        ' path; loads in a child process whose working directory was'
+        ' removed; the nine databases loaded from three threads at once.')
 ASSUMPTIONS = [
     'the data-directory cache is per process, hence the relocated load runs '
     'in a fresh subprocess',
